@@ -164,7 +164,10 @@ class XKNX:
         self.devices.async_remove_device_tasks()
         self.task_registry.stop()
         self.state_updater.stop()
-        await self.join()
+        if self.telegram_queue.running:
+            # nothing takes telegrams out of the queue otherwise - eg. when
+            # `start()` failed before the telegram queue was started
+            await self.join()
         # the interface (producer of incoming telegrams) first - a frame received
         # behind the queue's stop sentinel would never be marked done
         await self.knxip_interface.stop()
